@@ -211,9 +211,9 @@ def replay_group(run: Run, g: dict[str, Any], tab: dict[str, Any], rnd: random.R
                     if got_set != want_set:
                         sub = set(pubs.values())
                         extras = got_set - want_set if isinstance(got_set, set) else set()
-                        if isinstance(got_set, set) and want_set <= got_set and extras and not (extras & sub) and g["h"] % 2 == 0:
+                        if isinstance(got_set, set) and want_set <= got_set and extras and not (extras & sub) and g["card"] // n > 1:
                             # the candidates of the standard are all there; the extra ones are not points of <G>
-                            viol("recover_pub_keys_|keys outside the subgroup|even cofactor",
+                            viol("recover_pub_keys_|keys outside the subgroup|cofactor > 1",
                                  f"recover_pub_keys_(c={c}, r={r}, s={s}) = {got_set}: {extras} are outside the subgroup of order {n}",
                                  {"op": "recover_pub_keys_", "args": [c, r, s], "expected": sorted(want_set)})
                             continue
@@ -244,7 +244,7 @@ def replay_group(run: Run, g: dict[str, Any], tab: dict[str, Any], rnd: random.R
 
 
 def der_strings(run: Run, maxlen: int) -> list[tuple[bytes, bool]]:
-    alpha = "0, 1, 2, 3, 4, 6, 48, 127, 128, 255"
+    alpha = "0, 1, 2, 3, 4, 5, 6, 7, 8, 9, 48, 127, 128, 129, 255"
     cfg = DER_CFG.format(alpha=alpha, maxlen=maxlen, emit="INVARIANT Emit\n")
     res = tlc.run("DERModel", cfg_text=cfg, workers=1)
     for v in res.violations:
@@ -393,6 +393,13 @@ def real_events(run: Run, count: int, toy_groups: list[dict[str, Any]]) -> list[
             body = b"\x02" + bytes([len(rb)]) + rb + b"\x02" + bytes([len(sb)]) + sb
             if len(body) < 128:
                 muts.add(b"\x30" + bytes([len(body)]) + body)
+        if i == 0:
+            # short scalars: every padding / sign / zero corner at one and two bytes
+            for rb in (b"\x01", b"\x00\x01", b"\x7f", b"\x00\x7f", b"\x80", b"\x00\x80", b"\x00\x00\x80", b"\x00", b"\x00\x00", b"\xff", b"\x00\xff", b"\x01\x00"):
+                for sb in (b"\x01", b"\x00\x01", b"\x00\x80"):
+                    for x, y in ((rb, sb), (sb, rb)):
+                        body = b"\x02" + bytes([len(x)]) + x + b"\x02" + bytes([len(y)]) + y
+                        muts.add(b"\x30" + bytes([len(body)]) + body)
         for m in muts:
             if len(m) > 127:
                 continue
@@ -464,7 +471,7 @@ def check(run: Run) -> None:
         calls += a
         nontriv += b
     run.section("toy", {"groups": groups, "calls": calls, "signing_triples": nontriv})
-    strings = der_strings(run, 10 if thorough else 9)
+    strings = der_strings(run, 9 if thorough else 8)
     n_der = replay_der(run, strings)
     run.section("der", {"strings": n_der, "accepted": sum(1 for _, a in strings if a)})
     evs = real_events(run, 60 if thorough else 8, groups)
